@@ -401,7 +401,7 @@ func (e *Engine) Generate(prop, tier string, seed uint64, run int) *sim.Plan {
 	}
 	if prop == "C14" && r.Chance(0.3) {
 		id++
-		p.Steps = append(p.Steps, sim.Step{Id: id, Op: "wipe", R: r.Intn(nrep), D: 10})
+		p.Steps = append(p.Steps, sim.Step{Id: id, Op: "wipe", R: r.Intn(nrep), D: 10, N: r.Intn(2)})
 	}
 	return p
 }
